@@ -4,6 +4,12 @@
 (tempfile.mkdtemp(), removed in a finally); the bytes of the files, the XML structure parsed by Python and the RAW base64
 strings are handed to Coq, where Model/Vti.v, Model/Log.v and the decoder of Model/B64.v are evaluated and compared.
 Oracle: decode in Python (xml.etree + base64.b64decode + np.frombuffer) and compare with the inputs.
+
+WriteToVTI and ScalarToFile run as HISTORIES OF EVENTS on a file system (Model/Fs.v: names -> bytes): files that exist
+before (any content), module instances created and called in any interleaving, writes / removals by the environment in
+between.  After EVERY event all files of the scratch directory (names and bytes) are compared in Coq with the file system
+of the model (wvti_trace / log_trace); every ScalarToFile instance is additionally compared with the line-list model from
+its first call on (C20_log_file_is_line_model holds for ANY previous content).
 """
 import os, sys, json, math, shutil, tempfile, warnings, base64, re
 from fractions import Fraction
@@ -37,12 +43,6 @@ Definition arrays_ok (r : res (list darray)) (code : Z) (obs : list (bool * str 
   match r with Ok ds => (code =? 0) && all2 arr_ok ds obs | Err e => exn_code e =? code end.
 (* decoding only (no model): the raw text decodes to the expected bytes *)
 Definition decode_ok (raw : str) (expect : list Z) : bool := ostr_eqb (vtk_block_data raw) (Some expect).
-Definition fs_ok (r : res (list (str * str))) (code : Z) (obs : list (str * str)) : bool :=
-  match r with
-  | Err e => exn_code e =? code
-  | Ok fs => (code =? 0) && Nat.eqb (length fs) (length obs)
-             && forallb (fun nb => existsb (fun ob => Zl_eqb (fst nb) (fst ob) && Zl_eqb (snd nb) (snd ob)) obs) fs
-  end.
 Definition sid (s : str) : str := s.
 (* histories of events on a file system: exception class of the history and the files (names and bytes) after EVERY event *)
 Definition trace_ok (r : list fsys * Z) (code : Z) (obs : list fsys) : bool :=
@@ -1380,8 +1380,15 @@ def load_corpus():
 def run(ctx):
     import pymoto as pym
     quick = ctx.quick()
-    ctx.rule = ('cases are (a) direct DomainDefinition.write_to_vti calls, (b) WriteToVTI histories of 1-5 iterations, (c) ScalarToFile '
-                'histories of 1-5 calls, all run on the real implementation in a scratch directory; structured cases draw domains with '
+    ctx.rule = ('cases are (a) direct DomainDefinition.write_to_vti calls, (b) WriteToVTI histories, (c) ScalarToFile histories, all run on '
+                'the real implementation in a scratch directory.  (b) and (c) are histories of EVENTS on a file system: files that exist '
+                'before the first response (log / VTI of an earlier instance with the same or other tags, format, separator; longer, shorter, '
+                'empty, without final newline, 6-30 kB of filler; at the name of the same and of other iterations; neighbours with similar '
+                'names), directories that exist / are missing / are regular files (exception class), 1-4 module instances on one location '
+                '(in sequence, re-created, created first and called later, interleaved, numbered after overwrite and the reverse), files '
+                'written / removed by the environment between calls, a call with nothing to write, an exception in the middle; a fixed set '
+                'of such histories (wvti_stress, log_stress) runs on every seed, every second random history is widened the same way; after '
+                'EVERY event the names and bytes of ALL files are compared with the model.  Structured cases draw domains with '
                 'nel, nnodes not multiples of each other (2-D and 3-D), 1-4 vectors (cell/point/block, both block orientations, 2..11 '
                 'vectors per block, C/F/strided layouts, f8/f4/i8), scales, origins, element sizes, file names, overwrite modes, formats, '
                 'separators; a malformed stream (sizes that fit neither, ambiguous sizes, 3-D arrays, empty inputs, special float values, '
@@ -1392,6 +1399,9 @@ def run(ctx):
         'the value of the UInt64 block header is modelled as written (length of the base64 text); the property does not fix it',
         'array names are ASCII without XML special characters (names are not escaped by write_to_vti)',
         'ScalarToFile signals hold real scalars or C-/F-contiguous arrays; complex values and other memory layouts are not generated',
+        'file system model (Model/Fs.v): regular files under normalised relative paths; the target of a module is never an existing '
+        'directory; directories are not removed between construction and response; no concurrent writers (events are sequential); the '
+        'files left by an exception INSIDE write_to_vti (opened, partly written) are not modelled and not compared',
         'the classification theorem for plain vectors needs: the size c*nnodes of a point vector is not a multiple of nel (the literal '
         'quantifier "counts not multiples of each other" is not sufficient: C20_classification_literal_refuted); the oracle treats sizes '
         'that fit both kinds as undetermined; block vectors are classified by their axes (C20_classification_blocks)',
